@@ -93,6 +93,23 @@ Theorem C13_unroll_history_independent :
 Proof. exact unroll_after_history_is_fresh. Qed.
 Print Assumptions C13_unroll_history_independent.
 
+(* 5d. engine-side option handling (BaseEngine.get_tdm_options) in ANY program state -- rolled,
+       unrolled with any shots, space-unrolled, locked or not: space_unroll=True makes the executed
+       program space-unrolled and restricts the returned state to the `timebins` measured pulses
+       (from the crop value on when crop=True); otherwise the program is (space-)unrolled some way;
+       modes are selected iff the executed program is space-unrolled; the lock flag is untouched. *)
+Theorem C13_run_options_effective :
+  forall (N : list nat) (sh : shiftspec) (T : nat) (cs : list rcmd)
+         (st : pstate) (space_kw : bool) (shots : option nat) (crop : bool) (cropv : nat),
+    let r := tdm_options N sh T cs space_kw shots crop cropv st in
+    let st1 := fst (fst (fst r)) in
+    (space_kw = true -> st_space st1 <> None /\ snd (fst (fst r)) = Some ((if crop then cropv else 0), T)) /\
+    is_unrolled st1 = true /\
+    (st_space st1 = None <-> snd (fst (fst r)) = None) /\
+    st_locked st1 = st_locked st.
+Proof. exact tdm_options_effective. Qed.
+Print Assumptions C13_run_options_effective.
+
 (* 6. sample layout.  Full statement (not proved for unbounded sizes): *)
 Definition C13_samples_layout_statement : Prop :=
   forall N T shots, N <> [] -> Forall (fun n => 1 <= n) N -> 1 <= T ->
